@@ -848,6 +848,7 @@ type Engine struct {
 	cs        *ContractSet
 	heapSorts map[string]string
 	outDir    string
+	smtDir    string // this run's query files
 	timeoutS  int
 	seed      int
 	tier      string
